@@ -27,9 +27,10 @@ func TestFaultsLegitScripts(t *testing.T) {
 		if o.Key != "" {
 			t.Errorf("%s: %s %s", s.Name, o.Key, o.What)
 		}
-		for _, c := range o.Calls {
-			if !c.Returned || (c.Err != "" && !strings.Contains(c.Err, "stop server process")) {
-				t.Errorf("%s: call %+v", s.Name, c)
+		for i, c := range o.Calls {
+			expectErr := i < len(s.Calls) && s.Calls[i].ErrOK
+			if !c.Returned || (c.Err != "") != expectErr && !strings.Contains(c.Err, "stop server process") {
+				t.Errorf("%s: call %+v (error expected: %v)", s.Name, c, expectErr)
 			}
 		}
 		checkLabels(t, s, o)
